@@ -151,10 +151,10 @@ func (c *VirtualTable) Disconnect() error {
 	if err := toSqlite(c.common.Disconnect()); err != nil {
 		return err
 	}
-	if c.module.sc.ctxCancel != nil {
-		c.module.sc.ctxCancel()
-		c.module.sc.ctxCancel = nil
-	}
+	// the request context belongs to the connection and is shared by its other
+	// tables: release this one, but leave the connection a live context that
+	// still carries its deadline and write time
+	c.module.sc.ResetContext()
 
 	return nil
 }
